@@ -16,7 +16,7 @@ RULE = (
     "each evaluation is one seeded history (<=30 quick / <=60 thorough steps) of bind(prefix, ns, override, replace) / qname / curie / "
     "compute_qname / qname_strict / normalizeUri / URIRef.n3 / expand_curie / Turtle parse declaring prefixes / Turtle+RDF/XML serialise, "
     "issued through 1-3 Graph handles sharing one Memory or SimpleMemory store (each handle has its own NamespaceManager and caches, "
-    "bind_namespaces none/core/rdflib, created at scheduler-chosen moments); invariants after every step: namespaces() lists each prefix "
+    "bind_namespaces none/core/rdflib, created at scheduler-chosen moments; binds aimed at namespaces of IRIs asked about earlier, questions repeated, the empty namespace in the pool); invariants after every step: namespaces() lists each prefix "
     "and each namespace once, store.prefix/store.namespace are inverse on exactly that list, every compact form returned uses a prefix "
     "bound at that moment and expands back to the IRI; distinct = distinct trace digest; non-trivial = at least 2 binds that changed the "
     "map and at least 2 compact-form answers checked"
